@@ -10,6 +10,9 @@ func init() {
 	vHarnesses["H_C03_cut"] = H_C03_cut
 	vHarnesses["H_C04_catch"] = H_C04_catch
 	vHarnesses["H_C09_history"] = H_C09_history
+	vHarnesses["H_C10_store"] = H_C10_store
+	vHarnesses["H_C10_text"] = H_C10_text
+	vHarnesses["H_C10_bootstrap"] = H_C10_bootstrap
 }
 
 // H_C01_sld: differential run of case `inst` of the C01 corpus (real VM vs reference SLD core).
@@ -40,4 +43,22 @@ func H_C04_catch(inst int) {
 func H_C09_history(inst int) {
 	i := newFull()
 	engine.VH_C09(&i.VM, inst)
+}
+
+// H_C10_store: clause terms added with assertz/asserta (possibly with pre-bound variables) vs the reference.
+func H_C10_store(inst int) {
+	i := newFull()
+	engine.VH_C10(&i.VM, inst)
+}
+
+// H_C10_text: the same kinds of clauses loaded from text through Compile.
+func H_C10_text(inst int) {
+	i := newFull()
+	engine.VH_C10_text(&i.VM, inst)
+}
+
+// H_C10_bootstrap: every clause of bootstrap.pl as loaded by New() denotes its source clause.
+func H_C10_bootstrap(inst int) {
+	i := newFull()
+	engine.VH_C10_bootstrap(&i.VM, bootstrap)
 }
